@@ -46,6 +46,17 @@ func BatchChildMain() {
 		fmt.Fprintln(os.Stderr, "mini child: cannot write results:", err)
 		os.Exit(2)
 	}
+	if !req.Opts.Separate {
+		// one program for all units; nothing is reported unless the whole batch completes
+		var buf bytes.Buffer
+		for _, u := range RunBatch(req.Units, req.Opts) {
+			b, _ := json.Marshal(u)
+			buf.Write(append(b, '\n'))
+		}
+		f.Write(buf.Bytes())
+		f.Close()
+		os.Exit(0)
+	}
 	for i := range req.Units {
 		res := make([]UnitResult, 1)
 		runRange(req.Units[i:i+1], 0, 1, res, req.Opts)
@@ -61,11 +72,19 @@ const timedOut = "child process timed out"
 // HostCrash is the Panic value of a unit whose child process died (fatal Go runtime error, signal, or timeout).
 const HostCrash = "host crash"
 
-// RunBatchIsolated runs every unit as a program of its own in a child process. If the child dies, the unit
-// that was running gets Panic = HostCrash (with the head of the crash report in PanicMsg/Stack) and the
-// remaining units continue in a new child.
+// RunBatchIsolated is RunBatch in a child process. Unless o.Separate is set, the units first run as one
+// program; if that child dies (or with o.Separate), every unit runs as a program of its own: then, if the
+// child dies, the unit that was running gets Panic = HostCrash (with the head of the crash report in
+// PanicMsg/Stack) and the remaining units continue in a new child.
 func RunBatchIsolated(units []Unit, o BatchOpts) []UnitResult {
 	res := make([]UnitResult, len(units))
+	if !o.Separate {
+		// first try all units as one program in one child; if that child dies, fall back to one program per unit
+		if done, _ := runChild(units, o); len(done) == len(units) {
+			return done
+		}
+		o.Separate = true
+	}
 	lo := 0
 	for lo < len(units) {
 		done, crash := runChild(units[lo:], o)
